@@ -650,6 +650,10 @@ func (d *ubjDec) payload(m byte, depth int) (val.V, error) {
 	case 'C':
 		u, err := d.be(1)
 		d.feats["char"] = true
+		if err == nil && u > 127 {
+			// draft 12: a char "must not have a decimal value larger than 127"
+			return val.V{}, fmt.Errorf("char marker with value %d above 127", u)
+		}
 		return val.VUint(u), err
 	case 'H':
 		s, err := d.str()
